@@ -5,6 +5,9 @@ the Coq literals small; model and implementation are compared for EACH run):
   {"req":   a structural map request (harness/mapsym.py format; its "storage" entry is ignored here; a function with
             "nullable": true returns a real None -- canonical string "None" -- for some calls, see make_callable),
    "gens":  [[position in req.funcs, ...], ...]   generation structure of the REAL pipeline (submission order),
+   "resume": [{"pre": [part | None, ...], "fx": part | None, "run": <run>}]   runs on an existing store: the folder is
+            pre-filled by sequential map(fixed_indices=part, cleanup=first only) runs, the observed run uses
+            cleanup=False and fixed_indices=fx (part = [[axis, int | ["s", a, b, c]], ...] as in harness/props/c06.py),
    "runs":  [{"pis":  [[slot, ...], ...]           one execution order per generation (controlled executor),
               "eager": [[slot, ...], ...]          optional: slots that start at submission time (a prefix of pis),
               "stor": {function name: storage id}, "stor_form": "str" | "each" | "default",
@@ -64,7 +67,10 @@ RULE = ("random valid map requests (DAGs of 1..4 structural functions, generator
         "generation with <= 4 tasks (others: random permutations), sync and async entry point; real thread pools with "
         "per-call delays; real process pools (quick: on the None chains for every storage and on a few requests with "
         "shared_memory_dict; thorough: everywhere, plus the default executor); the data left in the run folder is "
-        "re-opened after every run } x { dict, file_array, shared_memory_dict, "
+        "re-opened after every run; runs on an existing store: complete folder / resume after fixed_indices parts / "
+        "fixed_indices on an empty folder or after another part, under the controlled executor (incl. eager starts), "
+        "thread pools and (chains, thorough) process pools; structural functions that raise for some calls (error "
+        "class compared) } x { dict, file_array, shared_memory_dict, "
         "per-function mixes; executor single / per output / default+overrides }; non-trivial = a generation with >= 2 "
         "tasks executed in a non-submission order, or a real pool; distinct by (specs, shapes, storages, executor, "
         "entry, schedules)")
@@ -76,12 +82,14 @@ ASSUMPTIONS = [
     "a task that starts while later tasks of its generation are still being submitted is modelled as a task that runs "
     "first (the controlled executor's `eager` slots and the real pools exercise this interleaving with the parent's "
     "submission code)",
-    "fresh run folder (no existing results: args.existing = []); resume is C05",
+    "runs on an existing store (cleanup=False on a folder pre-filled by sequential fixed_indices runs, fixed_indices "
+    "under an executor) are modelled by Model/ParResume.v on C06's Model/MapResume.v; torn / interrupted folders are C05",
     "user functions are deterministic and return arrays of the declared internal shape",
     "generation structure and order inside a generation are taken from the real pipeline (networkx) and validated as a "
     "layering inside Coq",
 ]
-TRUSTED = ["Model/ParGen.v mirrors the generation loop of pipefunc/map/_run.py by hand (on top of Model/MapRun.v)",
+TRUSTED = ["Model/ParGen.v mirrors the generation loop of pipefunc/map/_run.py by hand (on top of Model/MapRun.v); "
+           "Model/ParResume.v the same loop on an existing store (on top of Model/MapResume.v)",
            "harness/props/c03.py: controlled concurrent.futures.Executor, dump recorder (wrapping DictArray.dump / "
            "FileArray.dump), canonical log order",
            "harness/mapsym.py structural user functions and canonicalisation of arrays"]
@@ -97,12 +105,19 @@ class Sched:
     later tasks of the generation are still being submitted); the others run, in the order given for the batch, when
     a result is first needed."""
 
-    def __init__(self, pis, eager=()):
+    def __init__(self, pis, eager=(), gen_of=None):
         self.cur = []
         self.pis = list(pis)
         self.eager = [set(e) for e in eager]
+        self.gen_of = gen_of          # function name -> generation (a generation without tasks opens no batch)
         self.batches = []
+        self.batch_gens = []
         self.in_task = False
+
+    def _gen(self, entry):
+        if self.gen_of is None or entry[5] not in self.gen_of:
+            return len(self.batches)
+        return self.gen_of[entry[5]]
 
     def _run(self, entry):
         fut, fn, args, kwargs = entry[:4]
@@ -120,9 +135,9 @@ class Sched:
     def submit(self, fut, fn, args, kwargs):
         fut._batch = len(self.batches)
         slot = len(self.cur)
-        entry = [fut, fn, args, kwargs, False]
+        entry = [fut, fn, args, kwargs, False, _task_name(fn, args)]
         self.cur.append(entry)
-        g = len(self.batches)
+        g = self._gen(entry)
         if g < len(self.eager) and slot in self.eager[g]:
             self._run(entry)
 
@@ -131,7 +146,8 @@ class Sched:
         if fut._batch != len(self.batches) or not self.cur or self.in_task:
             return
         batch, self.cur = self.cur, []
-        g = len(self.batches)
+        g = self._gen(batch[0])
+        self.batch_gens.append(g)
         pi = self.pis[g] if g < len(self.pis) else []
         n = len(batch)
         if sorted(pi) != list(range(n)):     # not a permutation of the slots: submission order (as Model/ParGen.order)
@@ -140,6 +156,16 @@ class Sched:
         for slot in pi:
             if not batch[slot][4]:
                 self._run(batch[slot])
+
+
+def _task_name(fn, args):
+    """Name of the PipeFunc a submitted task belongs to (_run_iteration_and_process partial / _execute_single)."""
+    kw = getattr(fn, "keywords", None)
+    if kw and "func" in kw:
+        return getattr(kw["func"], "__name__", None)
+    if args:
+        return getattr(args[0], "__name__", None)
+    return None
 
 
 class LazyFuture(Future):
@@ -204,10 +230,14 @@ def make_callable(fd, log):
     ish = tuple(fd.get("ret") if fd.get("ret") is not None else fd.get("int") or ())
     aslist = fd.get("intlist", False)
     nullable = bool(fd.get("nullable"))
+    raises = bool(fd.get("raises"))
 
     def body(**kw):
         app = name + "(" + ",".join(f"{p}={mapsym.canon(kw[p])}" for p in params) + ")"
         log.add(app)
+        if raises and sum(map(ord, app)) % 3 == 0:     # as Corr/Run_C03.code_mod3
+            msg = "structural failure"
+            raise ZeroDivisionError(msg)
 
         def value(base):
             if not ish:
@@ -298,9 +328,10 @@ def dump_code(o, key, w):
 
 
 class DumpRecorder:
-    def __init__(self, is_worker):
+    def __init__(self, is_worker, linear=False):
         self.events = []
         self.is_worker = is_worker
+        self.linear = linear
 
     def __enter__(self):
         from pipefunc.map._storage_array._dict import DictArray
@@ -311,7 +342,8 @@ class DumpRecorder:
 
         def wrap(orig):
             def dump(self, key, value):
-                rec.events.append((id(self), tuple(int(k) for k in key), 1 if rec.is_worker() else 0))
+                rec.events.append((id(self), tuple(int(k) for k in key), 1 if rec.is_worker() else 0,
+                                   tuple(int(x) for x in self.shape)))
                 return orig(self, key, value)
             return dump
 
@@ -326,7 +358,12 @@ class DumpRecorder:
     def obs(self, req, results):
         outs = [o for f in req["funcs"] for o in f["outs"]]
         pos = {id(results[o].store): k for k, o in enumerate(outs) if o in results}
-        return [dump_code(pos.get(i, len(outs)), key, w) for i, key, w in self.events]
+        if self.linear:   # runs on an existing store: 2 * (output + 32 * (1 + linear external index)), who not recorded
+            import numpy as np
+
+            return [2 * (pos.get(i, len(outs)) + 32 * (1 + (int(np.ravel_multi_index(key, sh)) if key else 0)))
+                    for i, key, _, sh in self.events]
+        return [dump_code(pos.get(i, len(outs)), key, w) for i, key, w, _ in self.events]
 
 
 # ------------------------------------------------------------------ canonical log
@@ -363,8 +400,9 @@ def _drop_process_pool():
             p.shutdown(wait=False, cancel_futures=True)
 
 
-def _call_map(p, req, run, d, executor):
-    kw = dict(run_folder=d, internal_shapes=mapsym.internal_arg(req), storage=storage_arg(req, run), executor=executor)
+def _call_map(p, req, run, d, executor, cleanup=True, fixed=None):
+    kw = dict(run_folder=d, internal_shapes=mapsym.internal_arg(req), storage=storage_arg(req, run), executor=executor,
+              cleanup=cleanup, fixed_indices=fixed)
     inputs = mapsym.map_inputs(req)
     if run["entry"] == "map":
         return p.map(inputs, parallel=True, **kw)
@@ -389,32 +427,56 @@ def _values(req, r, folder):
     return [[a, b, mapsym.arr_obs(v)] for (_, a, b), v in zip(obs, loaded)]
 
 
-def _run(c, run):
-    """One run of the real implementation: [values, log lines, dumps] (strings not yet interned)."""
+_LAST = {}
+
+
+def _gen_of(c):
+    return {c["req"]["funcs"][pos]["name"]: k for k, g in enumerate(c["gens"]) for pos in g}
+
+
+def _run(c, run, resume=None):
+    """One run of the real implementation: [values, log lines, dumps, sorted log of the pre-filling runs]
+    (strings not yet interned).  resume = {"pre": [part | None, ...], "fx": part | None}: the run folder is first
+    filled by sequential runs with these fixed_indices, the observed run then uses cleanup=False."""
+    from . import c06
+
     req = c["req"]
     mode = run["exec"]
-    with tempfile.TemporaryDirectory(prefix="verif_c03_") as tmp:
+    lin = resume is not None
+    with tempfile.TemporaryDirectory(prefix="verif_c03_", ignore_cleanup_errors=True) as tmp:
         log = mapsym.CallLog(os.path.join(tmp, "calls.log") if mode in ("process", "default") else None)
         p = build_pipeline(req, log, delay_seed=None if mode == "ctl" else run.get("seed", 0))
         if real_gens(p, req) != c["gens"]:
             return Err("GenerationMismatch")
-        d = os.path.join(tmp, "run") if run.get("folder", True) else None
+        d = os.path.join(tmp, "run") if (run.get("folder", True) or lin) else None
         created = []
+        mk = dict(cleanup=True, fixed=None)
+        prelog = []
+        if lin:
+            for k, part in enumerate(resume["pre"]):
+                p.map(mapsym.map_inputs(req), run_folder=d, internal_shapes=mapsym.internal_arg(req),
+                      storage=storage_arg(req, run), parallel=False, cleanup=(k == 0),
+                      fixed_indices=None if part is None else c06._fixed(part))
+            prelog = log.read()
+            mk = dict(cleanup=not resume["pre"], fixed=None if resume["fx"] is None else c06._fixed(resume["fx"]))
+        n0 = len(prelog)
+        prelog = sorted(prelog)
         try:
             if mode == "ctl":
-                sched = Sched(run["pis"], run.get("eager") or ())
+                sched = Sched(run["pis"], run.get("eager") or (), _gen_of(c))
+                _LAST["sched"] = sched
                 ex, _ = executor_arg(req, run, lambda: CtlExecutor(sched))
-                with DumpRecorder(lambda: sched.in_task) as rec:
-                    r = _call_map(p, req, run, d, ex)
-                return [_values(req, r, d), log.read(), rec.obs(req, r)]
+                with DumpRecorder(lambda: sched.in_task, lin) as rec:
+                    r = _call_map(p, req, run, d, ex, **mk)
+                return [_values(req, r, d), log.read()[n0:], rec.obs(req, r), prelog]
             if mode == "thread":
                 me = threading.get_ident()
                 ex, created = executor_arg(req, run,
                                            lambda: ThreadPoolExecutor(max_workers=1 + run.get("seed", 0) % 4))
-                with DumpRecorder(lambda: threading.get_ident() != me) as rec:
-                    r = _call_map(p, req, run, d, ex)
-                return [_values(req, r, d), canon_log(c, log.read()),
-                        sorted(rec.obs(req, r))]
+                with DumpRecorder(lambda: threading.get_ident() != me, lin) as rec:
+                    r = _call_map(p, req, run, d, ex, **mk)
+                return [_values(req, r, d), canon_log(c, log.read()[n0:]),
+                        sorted(rec.obs(req, r)), prelog]
             if mode == "process":
                 k = itertools.count()
 
@@ -427,21 +489,25 @@ def _run(c, run):
                     return t
 
                 ex, _ = executor_arg(req, run, make)
-                r = _call_map(p, req, run, d, ex)
+                r = _call_map(p, req, run, d, ex, **mk)
             else:  # pipefunc's own default executor (ProcessPoolExecutor created by _maybe_executor)
-                r = _call_map(p, req, run, d, None)
-            return [_values(req, r, d), canon_log(c, log.read()), []]
+                r = _call_map(p, req, run, d, None, **mk)
+            return [_values(req, r, d), canon_log(c, log.read()[n0:]), [], prelog]
         finally:
-            for e in created:
-                e.shutdown(wait=False)
+            for e in created:     # wait: tasks still writing into the run folder must not race with its removal
+                e.shutdown(wait=True, cancel_futures=True)
 
 
-def _run_guarded(c, run):
+def _run_guarded(c, run, resume=None):
     box = {}
 
     def target():
+        import warnings
+
         try:
-            box["r"] = _run(c, run)
+            with warnings.catch_warnings():
+                warnings.simplefilter("ignore")     # "Errors comparing keys and values" on object arrays (resume)
+                box["r"] = _run(c, run, resume)
         except BaseException as e:  # noqa: BLE001
             box["r"] = Err(e)
 
@@ -462,8 +528,8 @@ def _val_strings(v):
 
 def run_impl(c):
     raw, timeouts = [], 0
-    for run in c["runs"]:
-        o = Err("Timeout") if timeouts >= 2 else _run_guarded(c, run)
+    for run, resume in [(r_, None) for r_ in c["runs"]] + [(s_["run"], s_) for s_ in c.get("resume") or []]:
+        o = Err("Timeout") if timeouts >= 2 else _run_guarded(c, run, resume)
         if isinstance(o, Err) and o.name == "OtherError" and o.detail == "":
             timeouts += 1
         raw.append(o)
@@ -474,6 +540,7 @@ def run_impl(c):
                 for v in vs:
                     strings.update(_val_strings(v))
             strings.update(o[1])
+            strings.update(o[3])
     table = sorted(strings)
     idx = {x: k for k, x in enumerate(table)}
 
@@ -495,7 +562,7 @@ def run_impl(c):
             vals.append([] if any(e is None for e in es) else es)
         if vals not in blocks:
             blocks.append(vals)
-        out.append([1, blocks.index(vals), [idx[x] for x in o[1]], o[2]])
+        out.append([1, blocks.index(vals), [idx[x] for x in o[1]], o[2], [idx[x] for x in o[3]]])
     return [table, blocks, out]
 
 
@@ -509,10 +576,12 @@ def _request(rng):
                 mapped = bool(f.get("spec") and f["spec"]["i"])
                 if not f.get("ret") and not f.get("int") and rng.random() < (0.35 if mapped else 0.15):
                     f["nullable"] = True
+            if rng.random() < 0.12:     # a user function that raises for some calls: the error class must agree
+                rng.choice(req["funcs"])["raises"] = True
             return req
 
 
-def _none_chain(rng):
+def _none_chain(rng, reduce_ok=True):
     """x -> y (None for some indices) -> z consumed ELEMENT-WISE (-> optional reduction): the values a consumer is
     handed for complete elements that hold None must not depend on the storage backend."""
     rank = rng.choice([1, 1, 2])
@@ -525,7 +594,7 @@ def _none_chain(rng):
         {"name": name, "outs": outs, "params": params, "spec": spec, "int": [], "bound": [], "defaults": []}, **kw)
     funcs = [f("f0", ["y0"], ["x0"], {"i": [["x0", axes]], "o": [["y0", axes]]}, nullable=True),
              f("f1", ["y1"], ["y0"], {"i": [["y0", axes]], "o": [["y1", axes]]}, nullable=rng.random() < 0.5)]
-    if rng.random() < 0.5:
+    if reduce_ok and rng.random() < 0.5:
         funcs.append(f("f2", ["y2"], ["y1", "y0"], None))
     return {"funcs": funcs, "internal": [],
             "inputs": [["x0", {"sh": sh, "d": [f"x0_{k}" for k in range(n)],
@@ -541,8 +610,49 @@ def _probe(req):
         gens = real_gens(p, req)
         sched = Sched([])
         run = {"stor": {f["name"]: "dict" for f in req["funcs"]}, "stor_form": "str", "entry": "map"}
-        _call_map(p, req, run, None, CtlExecutor(sched))
-    return gens, sched.batches
+        try:
+            _call_map(p, req, run, None, CtlExecutor(sched))
+        except ZeroDivisionError:     # a raising structural function: later generations are never submitted
+            if not any(f.get("raises") for f in req["funcs"]):
+                raise
+    return gens, sched.batches + [0] * (len(gens) - len(sched.batches))
+
+
+def _probe_resume(req, gens, pre, fx):
+    """Number of tasks each generation submits in the observed run of a scenario on a pre-filled folder."""
+    run = {"pis": [], "stor": {f["name"]: "dict" for f in req["funcs"]}, "stor_form": "str", "entry": "map",
+           "exec": "ctl", "exec_form": "single", "folder": True}
+    import warnings
+
+    with contextlib.redirect_stdout(io.StringIO()), warnings.catch_warnings():
+        warnings.simplefilter("ignore")
+        o = _run({"req": req, "gens": gens}, run, {"pre": pre, "fx": fx})
+    if isinstance(o, Err):
+        raise RuntimeError(o.detail)
+    sched = _LAST["sched"]
+    sizes = [0] * len(gens)
+    for n, g in zip(sched.batches, sched.batch_gens):
+        sizes[g] = n
+    return sizes
+
+
+def _resume_scenarios(rng, req, k):
+    """(pre-filling fixed_indices runs, fixed_indices of the observed run); None = a full run."""
+    from . import c06
+
+    scen = [([None], None)]                      # a complete folder: the observed run computes nothing
+    axes = c06.root_axes(req)
+    good = sorted(set(axes) - c06.reduced_axes_py(req))
+    if good:
+        parts, _ = c06.gen_parts(rng, req, good)
+        if parts:
+            scen.append((parts[:rng.randint(1, max(1, len(parts) - 1))], None))    # resume what is left
+            scen.append(([], parts[0]))                                            # a part on an empty folder
+            if len(parts) > 1:
+                scen.append((parts[:1], parts[1]))                                 # a part after another part
+    if len(scen) > k:
+        scen = [scen[1]] + rng.sample([scen[0]] + scen[2:], k - 1)
+    return scen
 
 
 def _stor(rng, req, kind):
@@ -579,14 +689,15 @@ SWEEP_KINDS = ["dict", "dict", "file_array", "file_array", "mix", "mix", "shared
 
 def generate(rng, tier, mult):
     thorough = tier != "quick"
-    n_req = (26 if not thorough else 220) * mult
+    n_req = (26 if not thorough else 160) * mult
     k_random = 4 if not thorough else 10
     cases = []
     n_chain = 2 if not thorough else 8
     n_proc_quick = 4          # quick: real process pools on the chains and on a few random requests
+    n_resume = 8 if not thorough else n_req    # requests that also get runs on an existing store
     for q in range(n_chain + n_req):
         chain = q < n_chain
-        req = _none_chain(rng) if chain else _request(rng)
+        req = _none_chain(rng, reduce_ok=(q % 2 == 1)) if chain else _request(rng)
         try:
             gens, sizes = _probe(req)
         except Exception:  # noqa: BLE001  (a request the sequential property C01 already reports)
@@ -654,6 +765,32 @@ def generate(rng, tier, mult):
                                 exec_form="single", seed=rng.randrange(10 ** 6)))
         for k in range(0, len(runs), MAX_RUNS):
             cases.append({"req": req, "gens": gens, "runs": runs[k:k + MAX_RUNS]})
+        # runs on an existing store: pre-filled run folder (cleanup=False) and / or fixed_indices
+        scen = _resume_scenarios(rng, req, 2 if not thorough else 4)
+        rich = len(scen) > 1        # fixed_indices can be used on this request (an axis that is not reduced)
+        if chain or (rich and n_resume > 0) or (not rich and rng.random() < 0.15):
+            n_resume -= 1 if (rich and not chain) else 0
+            resume = []
+            for pre, fx in scen:
+                try:
+                    rsizes = _probe_resume(req, gens, pre, fx)
+                except Exception:  # noqa: BLE001
+                    continue
+                execs = ["ctl", "ctl", "thread"] + (["process", "process"] if (thorough or chain) else [])
+                for j, exec_ in enumerate(execs):
+                    # a resumed process-pool run with shared_memory_dict: the storage must stay shared after load()
+                    kind = ("shared_memory_dict" if j == 3 else rng.choice(KINDS if exec_ == "process" else sweep_kinds))
+                    r_ = run(_random_pis(rng, rsizes) if exec_ == "ctl" else [], kind, exec_,
+                             rng.choice(["map", "async"]), seed=rng.randrange(10 ** 6),
+                             exec_form="single" if j == 3 else None)
+                    r_["folder"] = True
+                    if exec_ == "ctl" and j == 1:
+                        eager = [sorted(rng.sample(range(n), rng.randint(0, n))) for n in rsizes]
+                        r_["eager"] = eager
+                        r_["pis"] = [e + [s_ for s_ in pi if s_ not in e] for e, pi in zip(eager, r_["pis"])]
+                    resume.append({"pre": pre, "fx": fx, "run": r_})
+            if resume:
+                cases.append({"req": req, "gens": gens, "runs": [], "resume": resume})
     return cases
 
 
@@ -670,9 +807,23 @@ def emit_case(c) -> str:
         runs.append("{| r_pis := %s; r_dis := %s; r_mode := %d |}" % (
             clist([_nats(pi) for pi in r["pis"]]), clist([cbool(DIS[r["stor"][f["name"]]]) for f in req["funcs"]]), mode))
     none = clist([cstr(f["name"]) for f in req["funcs"] if f.get("nullable")])
-    return "{| q_funcs := %s; q_inputs := %s; q_internal := %s; q_gens := %s; q_runs := %s; q_none := %s |}" % (
+    from . import c06
+
+    def cfg(r):
+        mode = {"ctl": 0, "thread": 1}.get(r["exec"], 2)
+        return "{| r_pis := %s; r_dis := %s; r_mode := %d |}" % (
+            clist([_nats(pi) for pi in r["pis"]]), clist([cbool(DIS[r["stor"][f["name"]]]) for f in req["funcs"]]), mode)
+
+    def ofx(part):
+        return "None" if part is None else "(Some %s)" % c06.fixed_lit(part)
+
+    resume = clist(["{| s_pre := %s; s_fx := %s; s_cfg := %s |}" % (clist([ofx(q) for q in s_["pre"]]), ofx(s_["fx"]),
+                                                                   cfg(s_["run"])) for s_ in c.get("resume") or []])
+    fail = clist([cstr(f["name"]) for f in req["funcs"] if f.get("raises")])
+    return ("{| q_funcs := %s; q_inputs := %s; q_internal := %s; q_gens := %s; q_runs := %s; q_none := %s; "
+            "q_resume := %s; q_fail := %s |}") % (
         clist([mapgen.func_lit(f) for f in req["funcs"]]), mapgen._env(req["inputs"]),
-        mapgen.shapes_lit(req.get("internal")), clist([_nats(g) for g in c["gens"]]), clist(runs), none)
+        mapgen.shapes_lit(req.get("internal")), clist([_nats(g) for g in c["gens"]]), clist(runs), none, resume, fail)
 
 
 # ------------------------------------------------------------------ evidence helpers
@@ -681,12 +832,14 @@ def _run_nontrivial(r):
 
 
 def nontrivial_key(c):
-    if not any(_run_nontrivial(r) for r in c["runs"]):
+    if not (any(_run_nontrivial(r) for r in c["runs"]) or c.get("resume")):
         return None
     return ([[mapsym.spec_str(f.get("spec")), bool(f.get("nullable"))] for f in c["req"]["funcs"]],
             [v["sh"] if isinstance(v, dict) else 0 for _, v in c["req"]["inputs"]],
             [[sorted(r["stor"].items()), r["stor_form"], r["exec"], r["exec_form"], r["entry"], r["pis"],
-              r.get("folder", True), r.get("eager")] for r in c["runs"]])
+              r.get("folder", True), r.get("eager")] for r in c["runs"]],
+            [[s_["pre"], s_["fx"], s_["run"]["exec"], s_["run"]["pis"], sorted(s_["run"]["stor"].items())]
+             for s_ in c.get("resume") or []])
 
 
 def _bucket(n):
@@ -697,7 +850,7 @@ def _bucket(n):
 
 
 def distribution(c):
-    runs = c["runs"]
+    runs = c["runs"] + [s_["run"] for s_ in c.get("resume") or []]
     d = {"runs_per_case": _bucket(len(runs)), "generations": len(c["gens"]),
          "max_gen_width": max(len(g) for g in c["gens"]),
          "max_tasks_in_generation": max([len(pi) for r in runs for pi in r["pis"]] or [0]),
@@ -712,6 +865,8 @@ def distribution(c):
         d["has stor_form " + k] = "yes"
     if any(f.get("nullable") for f in c["req"]["funcs"]):
         d["has None-returning function"] = "yes"
+    if any(f.get("raises") for f in c["req"]["funcs"]):
+        d["has raising function"] = "yes"
     for k in sorted({r["exec"] + " x " + "+".join(sorted(set(r["stor"].values()))) for r in runs
                      if r["exec"] in ("process", "default")}):
         d["has " + k] = "yes"
@@ -719,6 +874,11 @@ def distribution(c):
         d["has eager starts"] = "yes"
     if any(not r.get("folder", True) for r in runs):
         d["has run_folder=None"] = "yes"
+    for s_ in c.get("resume") or []:
+        kind = ("complete folder" if s_["pre"] == [None] else
+                ("resume after parts" if s_["fx"] is None else
+                 ("fixed_indices on empty folder" if not s_["pre"] else "fixed_indices after a part")))
+        d["existing store: " + kind + " / " + s_["run"]["exec"]] = "yes"
     return d
 
 
@@ -733,6 +893,23 @@ def shrink(c):
         half = len(c["runs"]) // 2
         out.append(dict(c, runs=c["runs"][:half]))
         out.append(dict(c, runs=c["runs"][half:]))
+        return out
+    res = c.get("resume") or []
+    if res:
+        if c["runs"]:
+            return [dict(c, resume=[]), dict(c, runs=[])]
+        if len(res) > 1:
+            half = len(res) // 2
+            return [dict(c, resume=res[:half]), dict(c, resume=res[half:])]
+        s_ = res[0]
+        if s_["run"]["exec_form"] != "single":
+            out.append(dict(c, resume=[dict(s_, run=dict(s_["run"], exec_form="single"))]))
+        if s_["run"]["entry"] != "map":
+            out.append(dict(c, resume=[dict(s_, run=dict(s_["run"], entry="map"))]))
+        if len(s_["pre"]) > 1:
+            out.append(dict(c, resume=[dict(s_, pre=s_["pre"][:-1])]))
+        return out
+    if not c["runs"]:
         return out
     run = c["runs"][0]
     fs = req["funcs"]
